@@ -910,3 +910,441 @@ Proof.
   intros hmac s id s1 s2 cfg conn line now tok R F On. apply inactive_rejected; [exact On|].
   eapply reachable_from_inactive; [exact F|]. eapply revoke_key_inactive. exact R.
 Qed.
+
+(** * Permission revocation *)
+
+Definition entry (s : state) (id t : bytes) : option perm :=
+  match alookup id (st_users s) with
+  | Some u => alookup t (u_perms u)
+  | None => None
+  end.
+
+Definition roles_of (s : state) (id : bytes) : list bytes :=
+  match alookup id (st_users s) with Some u => u_roles u | None => [] end.
+
+Lemma grant_permission_entry : forall s id t p s',
+  grant_permission s id t p = (None, s') ->
+  entry s' id t = Some p /\ (forall t', t' <> t -> entry s' id t' = entry s id t').
+Proof.
+  intros s id t p s' H. unfold grant_permission in H.
+  destruct (alookup id (st_users s)) as [u|] eqn:L; [|discriminate]. inversion H; subst. clear H.
+  unfold entry, put_user, set_users_cache. cbn [st_users u_id]. rewrite alookup_ainsert_same. cbn [u_perms].
+  split; [apply alookup_ainsert_same|]. intros t' N. rewrite L. apply alookup_ainsert_other. exact N.
+Qed.
+
+Lemma get_permission_entry : forall s id t,
+  get_permission s id t = match entry s id t with Some p => p | None => perm_none end.
+Proof. intros. unfold get_permission, entry. destruct (alookup id (st_users s)); reflexivity. Qed.
+
+Definition revoked (r w : bool) (o : option perm) : Prop :=
+  exists p, o = Some p /\ (r = true -> p_read p = false) /\ (w = true -> p_write p = false).
+
+Lemma revoke_loop_entry : forall ts s r w id s' t,
+  revoke_loop s r w ts id = (OExec, s') ->
+  (In t ts \/ revoked r w (entry s id t)) -> revoked r w (entry s' id t).
+Proof.
+  induction ts as [|t0 ts IH]; intros s r w id s' t H C; cbn [revoke_loop] in H.
+  - inversion H; subst. destruct C as [[]|C]. exact C.
+  - destruct (grant_permission s id t0 _) as [[e|] s1] eqn:G; [discriminate|].
+    apply grant_permission_entry in G as [G1 G2].
+    apply (IH s1 r w id s' t H).
+    destruct (bytes_eqb t t0) eqn:E.
+    + beq. subst t0. right. eexists. split; [exact G1|]. cbn [p_read p_write].
+      split; intros ->; rewrite andb_false_r; reflexivity.
+    + beq. destruct C as [[C|C]|C]; [congruence|left; exact C|]. right. rewrite G2 by exact E. exact C.
+Qed.
+
+(** REVOKE takes effect for the next check: once [REVOKE … ON ts FROM id] has been executed,
+    write access to a revoked type is left to admins only, read access to admins and reading
+    roles only, and after revoking both nothing but the admin role gives access. *)
+Theorem revoke_perm_next : forall s who r w ts id k s' t,
+  wf s -> dispatch s who (CRevokePerm r w ts id) k = (OExec, s') -> In t ts ->
+  (w = true -> can_write (st_cache s') id t = true -> admin_user (st_users s') id) /\
+  (r = true -> can_read (st_cache s') id t = true ->
+     exists u, alookup id (st_users s') = Some u /\
+       (has_role u "admin" \/ has_role u "read-only" \/ has_role u "viewer" \/ has_role u "editor")) /\
+  (r = true -> w = true -> can_read (st_cache s') id t = true -> admin_user (st_users s') id).
+Proof.
+  intros s who r w ts id k s' t W H Hin.
+  assert (W' : wf s') by (change s' with (snd (OExec, s')); rewrite <- H; apply dispatch_wf; exact W).
+  cbn [dispatch] in H. destruct (hcheck auth_skip_perms who (is_admin (st_cache s))) as [o|] eqn:HC.
+  { inversion H; subst. unfold hcheck in HC. destruct who; [destruct (_ || _)|]; discriminate. }
+  pose proof (revoke_loop_entry ts s r w id s' t H (or_introl Hin)) as (p & E & Pr & Pw).
+  unfold entry in E. destruct (alookup id (st_users s')) as [u|] eqn:L; [|discriminate].
+  repeat split.
+  - intros -> CW. apply (can_write_spec s' id t W') in CW as (u' & L' & [A|[(p' & E' & Q)|(E' & _)]]);
+      rewrite L in L'; inversion L'; subst u'.
+    + exists u. auto.
+    + rewrite E in E'. inversion E'; subst. rewrite Pw in Q by reflexivity. discriminate.
+    + congruence.
+  - intros -> CR. apply (can_read_spec s' id t W') in CR as (u' & L' & [A|[(p' & E' & Q)|(A & _)]]);
+      rewrite L in L'; inversion L'; subst u'; exists u; (split; [reflexivity|]).
+    + auto.
+    + rewrite E in E'. inversion E'; subst. rewrite Pr in Q by reflexivity. discriminate.
+    + tauto.
+  - intros -> -> CR. apply (can_read_spec s' id t W') in CR as (u' & L' & [A|[(p' & E' & Q)|(_ & N)]]);
+      rewrite L in L'; inversion L'; subst u'.
+    + exists u. auto.
+    + rewrite E in E'. inversion E'; subst. rewrite Pr in Q by reflexivity. discriminate.
+    + exfalso. apply N. rewrite E. destruct p as [pr pw]. cbn in Pr, Pw.
+      rewrite Pr, Pw by reflexivity. reflexivity.
+Qed.
+
+(** * The main statement, its refutation and the strongest true variant *)
+
+(** what the declarative policy demands of user [uid] for command [c] *)
+Definition needs (s : state) (uid : bytes) (c : cmd) : Prop :=
+  match c with
+  | CStore t => may_write (st_users s) uid t
+  | CQuery q => forall t, In t (q_types q) -> may_read (st_users s) uid t
+  | CReplay t present => forall t', In t' (replay_types t present) -> may_read (st_users s) uid t'
+  | CCompare qs => forall t, In t (flat_map q_types qs) -> may_read (st_users s) uid t
+  | CRemember _ q => forall t, In t (q_types q) -> may_read (st_users s) uid t
+  | CShow name => forall t, In t (mat_types s name) -> may_read (st_users s) uid t
+  | CFlush => writer_user (st_users s) uid
+  | CPing | CBatch => True
+  | CDefine _ | CCreateUser _ _ _ | CRevokeKey _ | CListUsers
+  | CGrant _ _ _ _ | CRevokePerm _ _ _ _ | CShowPerms _ => admin_user (st_users s) uid
+  end.
+
+Definition policy (s : state) (who : option bytes) (c : cmd) : Prop :=
+  match c with
+  | CPing | CBatch => True
+  | _ => exists uid, who = Some uid /\ needs s uid c
+  end.
+
+(** C13 as stated: whatever is executed was authorised. *)
+Definition authorized_only : Prop :=
+  forall s who c k s', reachable s -> dispatch s who c k = (OExec, s') -> policy s who c.
+
+(** the known classes of violating inputs (decidable, by command kind and identity) *)
+Definition checked_kind (c : cmd) : bool :=
+  match c with
+  | CStore _ | CQuery _ | CDefine _ | CCreateUser _ _ _ | CRevokeKey _ | CListUsers
+  | CGrant _ _ _ _ | CRevokePerm _ _ _ _ | CShowPerms _ => true
+  | _ => false
+  end.
+Definition ReservedUserId (who : option bytes) (c : cmd) : bool :=
+  match who with Some u => bytes_eqb u auth_bypass_id && checked_kind c | None => false end.
+Definition UncheckedReadCommand (c : cmd) : bool :=
+  match c with CReplay _ _ | CShow _ | CRemember _ _ | CCompare _ => true | _ => false end.
+Definition FlushNoRole (c : cmd) : bool := match c with CFlush => true | _ => false end.
+Definition SequenceTailUnchecked (c : cmd) : bool :=
+  match c with CQuery (_, _ :: _) => true | _ => false end.
+Definition KnownClass (who : option bytes) (c : cmd) : bool :=
+  ReservedUserId who c || UncheckedReadCommand c || FlushNoRole c || SequenceTailUnchecked c.
+
+Lemma reserved_id_is_bypass : auth_bypass_id = bs "bypass".
+Proof. reflexivity. Qed.
+
+Lemma hcheck_some_not_exec : forall skip who ok o, hcheck skip who ok = Some o -> o <> OExec.
+Proof.
+  intros skip who ok o H. unfold hcheck in H. destruct who as [u|]; [destruct (_ || _)|];
+    inversion H; discriminate.
+Qed.
+
+Lemma hcheck_none : forall skip who ok, hcheck skip who ok = None ->
+  exists u, who = Some u /\ ((skip = true /\ u = auth_bypass_id) \/ ok u = true).
+Proof.
+  intros skip who ok H. unfold hcheck in H. destruct who as [u|]; [|discriminate].
+  destruct ((skip && bytes_eqb u auth_bypass_id) || ok u) eqn:E; [|discriminate].
+  exists u. split; [reflexivity|]. apply orb_true_iff in E as [E|E]; [|right; exact E].
+  apply andb_true_iff in E as [E1 E2]. beq. left. auto.
+Qed.
+
+Ltac exec_check H :=
+  match type of H with
+  | (match ?x with Some o => (o, _) | None => _ end) = (OExec, _) =>
+      let HC := fresh "HC" in
+      destruct x as [?o|] eqn:HC;
+      [exfalso; inversion H; subst; eapply hcheck_some_not_exec; [exact HC|reflexivity]|]
+  end.
+
+Theorem outside_known : forall s who c k s',
+  wf s -> KnownClass who c = false -> dispatch s who c k = (OExec, s') -> policy s who c.
+Proof.
+  intros s who c k s' W K H. unfold KnownClass in K.
+  apply orb_false_iff in K as [K K4]. apply orb_false_iff in K as [K K3]. apply orb_false_iff in K as [K1 K2].
+  assert (NB : forall u, who = Some u -> checked_kind c = true -> u <> auth_bypass_id).
+  { intros u -> CK E. subst u. unfold ReservedUserId in K1. rewrite bytes_eqb_refl, CK in K1. discriminate. }
+  destruct c; try discriminate K2; try discriminate K3; cbn [dispatch] in H; cbn [policy needs].
+  - (* STORE *)
+    change auth_ident_store with true in H. cbv iota in H. exec_check H.
+    apply hcheck_none in HC as (u & -> & [[_ E]|E]); [exfalso; eapply NB; eauto; reflexivity|].
+    exists u. split; [reflexivity|]. apply can_write_spec; assumption.
+  - (* QUERY *)
+    destruct q as [t seq]. destruct seq; [|discriminate K4]. cbn [fst snd] in H.
+    destruct (is_blank t); [discriminate|].
+    change auth_ident_query with true in H. change auth_query_checks_sequence with false in H. cbv iota in H.
+    exec_check H.
+    apply hcheck_none in HC as (u & -> & [[_ E]|E]); [exfalso; eapply NB; eauto; reflexivity|].
+    exists u. split; [reflexivity|]. intros t' [<-|[]]. apply can_read_spec; assumption.
+  - (* PING *) exact I.
+  - (* DEFINE *)
+    change auth_ident_define with true in H. cbv iota in H. exec_check H.
+    apply hcheck_none in HC as (u & -> & [[_ E]|E]); [exfalso; eapply NB; eauto; reflexivity|].
+    exists u. split; [reflexivity|]. apply is_admin_spec; assumption.
+  - (* CREATE USER *)
+    destruct (hcheck auth_skip_users who (is_admin (st_cache s))) as [o|] eqn:HC.
+    { inversion H; subst. exfalso. eapply hcheck_some_not_exec; eauto. }
+    apply hcheck_none in HC as (u & -> & [[_ E]|E]); [exfalso; eapply NB; eauto; reflexivity|].
+    exists u. split; [reflexivity|]. apply is_admin_spec; assumption.
+  - (* REVOKE KEY *)
+    destruct (hcheck auth_skip_users who (is_admin (st_cache s))) as [o|] eqn:HC.
+    { inversion H; subst. exfalso. eapply hcheck_some_not_exec; eauto. }
+    apply hcheck_none in HC as (u & -> & [[_ E]|E]); [exfalso; eapply NB; eauto; reflexivity|].
+    exists u. split; [reflexivity|]. apply is_admin_spec; assumption.
+  - (* LIST USERS *)
+    exec_check H.
+    apply hcheck_none in HC as (u & -> & [[_ E]|E]); [exfalso; eapply NB; eauto; reflexivity|].
+    exists u. split; [reflexivity|]. apply is_admin_spec; assumption.
+  - (* GRANT *)
+    destruct (hcheck auth_skip_perms who (is_admin (st_cache s))) as [o|] eqn:HC.
+    { inversion H; subst. exfalso. eapply hcheck_some_not_exec; eauto. }
+    apply hcheck_none in HC as (u & -> & [[_ E]|E]); [exfalso; eapply NB; eauto; reflexivity|].
+    exists u. split; [reflexivity|]. apply is_admin_spec; assumption.
+  - (* REVOKE *)
+    destruct (hcheck auth_skip_perms who (is_admin (st_cache s))) as [o|] eqn:HC.
+    { inversion H; subst. exfalso. eapply hcheck_some_not_exec; eauto. }
+    apply hcheck_none in HC as (u & -> & [[_ E]|E]); [exfalso; eapply NB; eauto; reflexivity|].
+    exists u. split; [reflexivity|]. apply is_admin_spec; assumption.
+  - (* SHOW PERMISSIONS *)
+    destruct (hcheck auth_skip_perms who (is_admin (st_cache s))) as [o|] eqn:HC.
+    { inversion H; subst. exfalso. eapply hcheck_some_not_exec; eauto. }
+    apply hcheck_none in HC as (u & -> & [[_ E]|E]); [exfalso; eapply NB; eauto; reflexivity|].
+    exists u. split; [reflexivity|]. apply is_admin_spec; assumption.
+  - (* BATCH *) exact I.
+Qed.
+
+(** even inside the sequence class the head event type of a query is checked *)
+Lemma query_head_checked : forall s u q k s',
+  wf s -> u <> auth_bypass_id -> dispatch s (Some u) (CQuery q) k = (OExec, s') ->
+  may_read (st_users s) u (fst q).
+Proof.
+  intros s u q k s' W N H. cbn [dispatch] in H. destruct (is_blank (fst q)); [discriminate|].
+  change auth_ident_query with true in H. cbv iota in H. exec_check H.
+  apply hcheck_none in HC as (u' & E & [[_ B]|C]); inversion E; subst u'; [contradiction|].
+  apply can_read_spec; assumption.
+Qed.
+
+(** the commands of the unchecked classes do not depend on the caller's identity at all *)
+Lemma no_identity_commands : forall s who who' c k,
+  UncheckedReadCommand c || FlushNoRole c = true -> dispatch s who c k = dispatch s who' c k.
+Proof.
+  intros s who who' c k H. destruct c; try discriminate H; cbn [dispatch];
+    unfold read_check;
+    change auth_ident_replay with false; change auth_ident_compare with false;
+    change auth_ident_remember with false; change auth_ident_show with false;
+    change auth_ident_flush with false; reflexivity.
+Qed.
+
+(** ** (a) the reserved id can be created *)
+Theorem reserved_id_creatable : forall s key fk roles,
+  alookup auth_bypass_id (st_users s) = None -> blen key <= auth_max_key_len ->
+  exists s', create_user s auth_bypass_id (Some key) fk roles = (None, s') /\
+             exists u, alookup auth_bypass_id (st_users s') = Some u /\ u_active u = true /\ u_roles u = roles.
+Proof.
+  intros s key fk roles L B. unfold create_user.
+  assert (V : validate_user_id auth_bypass_id = None) by (vm_compute; reflexivity).
+  rewrite V. apply N.ltb_ge in B. rewrite B, L. eexists. split; [reflexivity|].
+  unfold put_user, set_users_cache. cbn [st_users u_id]. rewrite alookup_ainsert_same.
+  eexists. repeat split.
+Qed.
+
+(** ** Witnesses *)
+Definition w_root : option bytes := Some (bs "root").
+Definition w_state : state :=
+  let s1 := snd (create_user state_empty (bs "root") (Some (bs "rootkey")) [] [bs "admin"]) in
+  let s2 := snd (dispatch s1 w_root (CDefine (bs "ta")) []) in
+  let s3 := snd (dispatch s2 w_root (CDefine (bs "tb")) []) in
+  let s4 := snd (dispatch s3 w_root (CCreateUser (bs "bypass") (Some (bs "kb")) None) []) in
+  let s5 := snd (dispatch s4 w_root (CCreateUser (bs "rd") (Some (bs "k1")) None) []) in
+  let s6 := snd (dispatch s5 w_root (CGrant true false [bs "ta"] (bs "rd")) []) in
+  snd (dispatch s6 w_root (CRemember (bs "mb") (bs "tb", [])) []).
+
+Lemma w_state_reachable : reachable w_state.
+Proof.
+  unfold w_state, reachable. cbv zeta.
+  repeat (eapply rf_step; [|apply st_dispatch]). eapply rf_step; [apply rf_refl|apply st_create].
+Qed.
+
+Lemma w_state_wf : wf w_state.
+Proof. apply reachable_wf. apply w_state_reachable. Qed.
+
+Lemma not_admin : forall uid, is_admin (st_cache w_state) uid = false -> ~ admin_user (st_users w_state) uid.
+Proof. intros uid H A. apply (is_admin_spec _ _ w_state_wf) in A. congruence. Qed.
+Lemma not_reader : forall uid t, can_read (st_cache w_state) uid t = false -> ~ may_read (st_users w_state) uid t.
+Proof. intros uid t H A. apply (can_read_spec _ _ _ w_state_wf) in A. congruence. Qed.
+Lemma not_writer : forall uid, writer_role (st_cache w_state) uid = false -> ~ writer_user (st_users w_state) uid.
+Proof. intros uid H A. apply (writer_role_spec _ _ w_state_wf) in A. congruence. Qed.
+
+(** (a) user "bypass" (no role, no permission) creates an admin account *)
+Lemma refute_reserved :
+  exists s', dispatch w_state (Some (bs "bypass")) (CCreateUser (bs "evil") (Some (bs "e")) (Some [bs "admin"])) [] = (OExec, s')
+  /\ ReservedUserId (Some (bs "bypass")) (CCreateUser (bs "evil") (Some (bs "e")) (Some [bs "admin"])) = true
+  /\ ~ policy w_state (Some (bs "bypass")) (CCreateUser (bs "evil") (Some (bs "e")) (Some [bs "admin"])).
+Proof.
+  eexists. split; [vm_compute; reflexivity|]. split; [reflexivity|].
+  intros (uid & E & A). inversion E; subst uid. revert A. apply not_admin. vm_compute. reflexivity.
+Qed.
+
+(** (b) user "rd" (read permission on "ta" only) replays a context holding "ta" and "tb" events *)
+Lemma refute_replay :
+  exists s', dispatch w_state (Some (bs "rd")) (CReplay None [bs "ta"; bs "tb"]) [] = (OExec, s')
+  /\ UncheckedReadCommand (CReplay None [bs "ta"; bs "tb"]) = true
+  /\ ~ policy w_state (Some (bs "rd")) (CReplay None [bs "ta"; bs "tb"]).
+Proof.
+  eexists. split; [vm_compute; reflexivity|]. split; [reflexivity|].
+  intros (uid & E & A). inversion E; subst uid. cbn [needs replay_types] in A.
+  specialize (A (bs "tb") (or_intror (or_introl eq_refl))). revert A. apply not_reader. vm_compute. reflexivity.
+Qed.
+
+Lemma refute_show :
+  exists s', dispatch w_state (Some (bs "rd")) (CShow (bs "mb")) [] = (OExec, s')
+  /\ ~ policy w_state (Some (bs "rd")) (CShow (bs "mb")).
+Proof.
+  eexists. split; [vm_compute; reflexivity|].
+  intros (uid & E & A). inversion E; subst uid. cbn [needs] in A.
+  specialize (A (bs "tb")). revert A. intro A.
+  assert (In (bs "tb") (mat_types w_state (bs "mb"))) as HI by (vm_compute; left; reflexivity).
+  apply A in HI. revert HI. apply not_reader. vm_compute. reflexivity.
+Qed.
+
+Lemma refute_remember :
+  exists s', dispatch w_state (Some (bs "rd")) (CRemember (bs "m2") (bs "tb", [])) [] = (OExec, s')
+  /\ ~ policy w_state (Some (bs "rd")) (CRemember (bs "m2") (bs "tb", [])).
+Proof.
+  eexists. split; [vm_compute; reflexivity|].
+  intros (uid & E & A). inversion E; subst uid. cbn [needs q_types fst snd] in A.
+  specialize (A (bs "tb") (or_introl eq_refl)). revert A. apply not_reader. vm_compute. reflexivity.
+Qed.
+
+Lemma refute_compare :
+  exists s', dispatch w_state (Some (bs "rd")) (CCompare [(bs "ta", []); (bs "tb", [])]) [] = (OExec, s')
+  /\ ~ policy w_state (Some (bs "rd")) (CCompare [(bs "ta", []); (bs "tb", [])]).
+Proof.
+  eexists. split; [vm_compute; reflexivity|].
+  intros (uid & E & A). inversion E; subst uid. cbn [needs] in A.
+  specialize (A (bs "tb")). 
+  assert (In (bs "tb") (flat_map q_types [(bs "ta", []); (bs "tb", [])])) as HI by (cbn; auto).
+  apply A in HI. revert HI. apply not_reader. vm_compute. reflexivity.
+Qed.
+
+Lemma refute_flush :
+  exists s', dispatch w_state (Some (bs "rd")) CFlush [] = (OExec, s')
+  /\ FlushNoRole CFlush = true /\ ~ policy w_state (Some (bs "rd")) CFlush.
+Proof.
+  eexists. split; [vm_compute; reflexivity|]. split; [reflexivity|].
+  intros (uid & E & A). inversion E; subst uid. revert A. apply not_writer. vm_compute. reflexivity.
+Qed.
+
+(** (c) user "rd" runs a sequence query whose second event type it cannot read *)
+Lemma refute_sequence :
+  exists s', dispatch w_state (Some (bs "rd")) (CQuery (bs "ta", [bs "tb"])) [] = (OExec, s')
+  /\ SequenceTailUnchecked (CQuery (bs "ta", [bs "tb"])) = true
+  /\ ~ policy w_state (Some (bs "rd")) (CQuery (bs "ta", [bs "tb"])).
+Proof.
+  eexists. split; [vm_compute; reflexivity|]. split; [reflexivity|].
+  intros (uid & E & A). inversion E; subst uid. cbn [needs q_types fst snd] in A.
+  specialize (A (bs "tb") (or_intror (or_introl eq_refl))). revert A. apply not_reader. vm_compute. reflexivity.
+Qed.
+
+Theorem authorized_only_refuted :
+  ~ authorized_only /\
+  (exists s who c k s', reachable s /\ dispatch s who c k = (OExec, s') /\ ReservedUserId who c = true /\ ~ policy s who c) /\
+  (exists s who c k s', reachable s /\ dispatch s who c k = (OExec, s') /\ UncheckedReadCommand c = true /\ ~ policy s who c) /\
+  (exists s who c k s', reachable s /\ dispatch s who c k = (OExec, s') /\ FlushNoRole c = true /\ ~ policy s who c) /\
+  (exists s who c k s', reachable s /\ dispatch s who c k = (OExec, s') /\ SequenceTailUnchecked c = true /\ ~ policy s who c).
+Proof.
+  split; [|split; [|split; [|split]]].
+  - intro A. destruct refute_flush as (s' & D & _ & N). apply N. eapply A; [apply w_state_reachable|exact D].
+  - destruct refute_reserved as (s' & D & K & N). do 5 eexists. split; [apply w_state_reachable|]. eauto.
+  - destruct refute_replay as (s' & D & K & N). do 5 eexists. split; [apply w_state_reachable|]. eauto.
+  - destruct refute_flush as (s' & D & K & N). do 5 eexists. split; [apply w_state_reachable|]. eauto.
+  - destruct refute_sequence as (s' & D & K & N). do 5 eexists. split; [apply w_state_reachable|]. eauto.
+Qed.
+
+(** the hypotheses of [outside_known] are satisfiable: a plain QUERY by "rd" is executed, is in no
+    known class, and a STORE by "rd" is refused *)
+Example outside_known_inhabited :
+  KnownClass (Some (bs "rd")) (CQuery (bs "ta", [])) = false /\
+  fst (dispatch w_state (Some (bs "rd")) (CQuery (bs "ta", [])) []) = OExec /\
+  fst (dispatch w_state (Some (bs "rd")) (CQuery (bs "tb", [])) []) = O403 /\
+  fst (dispatch w_state (Some (bs "rd")) (CStore (bs "ta")) []) = O403 /\
+  fst (dispatch w_state None (CStore (bs "ta")) []) = O401.
+Proof. repeat split; vm_compute; reflexivity. Qed.
+
+(** * End to end: a TCP line that gets a command executed *)
+Section EndToEnd.
+  Variable hmac : bytes -> bytes -> bytes.
+  Variable parse : bytes -> option cmd.
+
+  Theorem served_outside_known : forall cfg s conn line now tok key c uid conn' s',
+    wf s -> auth_on cfg ->
+    serve_tcp hmac parse cfg s conn line now tok key = (SOut c uid OExec, conn', s') ->
+    exists text, credential hmac s conn now line text uid /\ parse text = Some c /\
+                 (KnownClass (Some uid) c = false -> policy s (Some uid) c).
+  Proof.
+    intros cfg s conn line now tok key c uid conn' s' W On H. unfold serve_tcp in H.
+    destruct (gate_tcp hmac cfg s conn line now tok) as [[r c1] s1] eqn:G.
+    unfold after_gate in H. destruct r as [|au|text du]; try (inversion H; fail).
+    destruct (parse text) as [c0|] eqn:P; [|inversion H].
+    destruct (dispatch s1 (Some du) c0 key) as [o s2] eqn:D. inversion H; subst. clear H.
+    apply gate_sound in G as (C & _ & ->); [|exact On].
+    exists text. split; [exact C|]. split; [exact P|]. intro K. eapply outside_known; eauto.
+  Qed.
+End EndToEnd.
+
+(** satisfiability of the gate theorems' hypotheses, with a toy keyed function for [hmac] *)
+Definition toy_hmac (k m : bytes) : bytes := k ++ [35] ++ m.
+Definition cfg_on : gate_cfg := mkCfg false true 300.
+
+Example gate_dispatches :
+  let line := bs "rd:k1#PING:PING" in
+  fst (fst (gate_tcp toy_hmac cfg_on w_state None line 10 (bs "tok"))) = GDispatch (bs "PING") (bs "rd") /\
+  fst (fst (gate_tcp toy_hmac cfg_on w_state None (bs "rd:k1#PINg:PING") 10 (bs "tok"))) = GReject /\
+  fst (fst (gate_tcp toy_hmac cfg_on w_state None (bs "AUTH rd:k1#rd") 10 (bs "tok"))) = GAuthOk (bs "rd") /\
+  (let s1 := snd (gate_tcp toy_hmac cfg_on w_state None (bs "AUTH rd:k1#rd") 10 (bs "tok")) in
+   fst (fst (gate_tcp toy_hmac cfg_on s1 None (bs "PING TOKEN tok") 310 [])) = GDispatch (bs "PING") (bs "rd") /\
+   fst (fst (gate_tcp toy_hmac cfg_on s1 None (bs "PING TOKEN tok") 311 [])) = GReject /\
+   fst (fst (gate_tcp toy_hmac cfg_on s1 (Some (bs "rd")) (bs "k1#PING: PING ") 10 [])) = GDispatch (bs "PING") (bs "rd")).
+Proof. cbv zeta. repeat split; vm_compute; reflexivity. Qed.
+
+Example revoke_key_inhabited :
+  exists s1, revoke_key w_state (bs "rd") = (None, s1) /\
+    fst (fst (gate_tcp toy_hmac cfg_on s1 None (bs "rd:k1#PING:PING") 10 [])) = GReject.
+Proof. eexists. split; vm_compute; reflexivity. Qed.
+
+Example revoke_perm_inhabited :
+  exists s', dispatch w_state w_root (CRevokePerm true false [bs "ta"] (bs "rd")) [] = (OExec, s') /\
+    can_read (st_cache w_state) (bs "rd") (bs "ta") = true /\ can_read (st_cache s') (bs "rd") (bs "ta") = false.
+Proof. eexists. repeat split; vm_compute; reflexivity. Qed.
+
+(** * The statements of Props/C13.v, over reachable states *)
+Theorem can_read_reachable : forall s uid t, reachable s ->
+  (can_read (st_cache s) uid t = true <-> may_read (st_users s) uid t).
+Proof. intros. apply can_read_spec. apply reachable_wf. assumption. Qed.
+
+Theorem can_write_reachable : forall s uid t, reachable s ->
+  (can_write (st_cache s) uid t = true <-> may_write (st_users s) uid t).
+Proof. intros. apply can_write_spec. apply reachable_wf. assumption. Qed.
+
+Theorem revoke_perm_reachable : forall s who r w ts id k s' t,
+  reachable s -> dispatch s who (CRevokePerm r w ts id) k = (OExec, s') -> In t ts ->
+  (w = true -> can_write (st_cache s') id t = true -> admin_user (st_users s') id) /\
+  (r = true -> can_read (st_cache s') id t = true ->
+     exists u, alookup id (st_users s') = Some u /\
+       (has_role u "admin" \/ has_role u "read-only" \/ has_role u "viewer" \/ has_role u "editor")) /\
+  (r = true -> w = true -> can_read (st_cache s') id t = true -> admin_user (st_users s') id).
+Proof. intros. eapply revoke_perm_next; eauto. apply reachable_wf. assumption. Qed.
+
+Theorem outside_known_reachable : forall s who c k s',
+  reachable s -> KnownClass who c = false -> dispatch s who c k = (OExec, s') -> policy s who c.
+Proof. intros. eapply outside_known; eauto. apply reachable_wf. assumption. Qed.
+
+Theorem served_reachable : forall hmac parse cfg s conn line now tok key c uid conn' s',
+  reachable s -> auth_on cfg ->
+  serve_tcp hmac parse cfg s conn line now tok key = (SOut c uid OExec, conn', s') ->
+  exists text, credential hmac s conn now line text uid /\ parse text = Some c /\
+               (KnownClass (Some uid) c = false -> policy s (Some uid) c).
+Proof. intros. eapply served_outside_known; eauto. apply reachable_wf. assumption. Qed.
